@@ -200,6 +200,20 @@ def coq_build(prop_file, timeout=1500):
     return res
 
 
+def coqchk(prop_file, timeout=1800):
+    """independent re-check of the compiled property file and everything it depends on (thorough tier);
+    returns (ok, list of axioms it reports, summary text)"""
+    mod = "AV." + prop_file[:-2].replace("/", ".")
+    with Lock("coq"):
+        rc, out = sh(["timeout", str(timeout), "coqchk", "-o", "-silent", "-Q", ".", "AV", mod], cwd=COQ, timeout=timeout + 60)
+    m = re.search(r"\* Axioms:(.*?)\n\s*\n\* Constants/Inductives relying on type-in-type:(.*?)\n\s*\n\* Constants/Inductives relying on unsafe \(co\)fixpoints:(.*?)\n\s*\n\* Inductives whose positivity is assumed:(.*?)\n", out, re.S)
+    if rc != 0 or not m:
+        return False, [], out[-800:]
+    axioms = [l.strip() for l in m.group(1).strip().splitlines() if l.strip() and "<none>" not in l]
+    unsafe = [g.strip() for g in (m.group(2), m.group(3), m.group(4)) if "<none>" not in g]
+    return (not unsafe), axioms, "coqchk: axioms=%s unsafe=%s" % (axioms or "none", unsafe or "none")
+
+
 def coq_proof_verdict(b):
     """list of reasons why the proof side does not check (empty = fine)"""
     why = []
